@@ -569,6 +569,8 @@ func checkExecLoop(c *Ctx) {
 // ---------------------------------------------------------------- C12
 
 func runC12(c *Ctx) {
+	c.Rule("R12d", "Executor.Pending decides whether the last revision is complete from Applied and Total alone, compared for (in)equality only: a file that now has fewer statements than were applied (Applied > Total) is still handed to Execute, which refuses it", 4)
+	checkPendingReads(c, "R12d")
 	c.Rule("R12a", "guarded index: in `G || …a[i]…` (or `G && …a[i]…`) where G compares i with len(a), the fall-through of G must imply 0 <= i < len(a) (repo-wide, both modules)", 2)
 	c.Rule("R12b", "Execute: the partial-hash comparison loop is `for i := 0; i < r.Applied; i++`, compares sums[i] with PartialHashes[i] (same index, same h1: prefix constant as the append), and every path from entry to ExecContext passes it (or the false edge of `r.Applied > 0`)", 4)
 	c.Rule("R12c", "Execute: from the construction of HistoryChangedError no ExecContext, no non-deferred writeRevision and no store to a Revision progress field is reachable; and no progress-field store precedes it", 3)
